@@ -65,11 +65,11 @@ func (w *Worker) check(asserts []*Term, wants []*Term) (string, []ModelVal) {
 }
 
 type PathSample struct {
-	Decisions []int       `json:"decisions"`
-	End       string      `json:"end"`
-	Script    []ScriptVal `json:"inputs,omitempty"`
+	Decisions []int         `json:"decisions"`
+	End       string        `json:"end"`
+	Script    []ScriptVal   `json:"inputs,omitempty"`
 	Observed  []ObservedVal `json:"observed,omitempty"`
-	Steps     int         `json:"steps"`
+	Steps     int           `json:"steps"`
 }
 
 type RunResult struct {
